@@ -179,7 +179,7 @@ def correlate_samples(variables, sample_vector):
         chelosky_decomposition = np.linalg.cholesky(corr_matrix)
         result_vector = np.dot(chelosky_decomposition, sample_vector)
         return result_vector
-    except np.linalg.linalg.LinAlgError:  # pragma: no cover
+    except np.linalg.LinAlgError:  # pragma: no cover
         warnings.warn(
             "Fail to generate a physical correlation matrix for the values provided, using "
             "uncorrelated samples instead. Please check that the covariance or correlation "
